@@ -64,6 +64,7 @@ const struct bufferevent_ops bufferevent_ops_filter = { "filter-not-linked", 0, 
 #define REV_TIMEOUT       26
 #define TRIGGER_RW        27   /* bufferevent_trigger(EV_READ|EV_WRITE, 0) */
 #define DISABLE_W         28
+#define WEV_WRITE_ALL     30   /* write event; everything queued is accepted */
 #define ENABLE_W          29
 
 #ifndef C19_SEQ
@@ -135,6 +136,7 @@ static void fire_read(short ev, long force)
 	struct bufferevent *b = u_bev[B];
 	if (!g_alive_mem) return;
 	if (ev == EV_TIMEOUT ? !vp_ev_timer_pending(&b->ev_read) : !vp_ev_io_pending(&b->ev_read)) return;     /* the loop only runs pending events */
+	if (ev != EV_TIMEOUT && event_get_fd(&b->ev_read) < 0) return;                                          /* ... and no fd, no I/O readiness */
 	VP_ASSERT(!g_rd_ended, "C19: read event pending after EOF/ERROR was reported for reading (something could be read after EOF)");
 	vp_sink_force = force;
 	bufferevent_readcb(event_get_fd(&b->ev_read), ev, b);
@@ -145,6 +147,7 @@ static void fire_write(long force)
 	struct bufferevent *b = u_bev[B];
 	if (!g_alive_mem) return;
 	if (!vp_ev_io_pending(&b->ev_write) && !vp_ev_active(&b->ev_write)) return;
+	if (!vp_ev_active(&b->ev_write) && event_get_fd(&b->ev_write) < 0) return;
 	b->ev_write.ev_flags &= ~EVLIST_ACTIVE;
 	vp_sink_force = force;
 	bufferevent_writecb(event_get_fd(&b->ev_write), EV_WRITE, b);
@@ -167,10 +170,13 @@ static void do_op(int op)
 	case WEV_CONNECTED: vp_finished_connecting = 1; fire_write(-2); break;
 	case WEV_CONNFAIL: vp_finished_connecting = -1; fire_write(-2); break;
 	case WEV_CONNPENDING: vp_finished_connecting = 0; fire_write(-2); break;
-	case WEV_WRITE_OK: vp_finished_connecting = 1; fire_write((long)vp_range(1, 0x7fffffff)); break;
+	/* byte counts are concrete here (3 read, 5 queued, 2 or all written): whether a transfer succeeded decides which
+	 * callbacks get queued, and `res <= 0` on a symbolic count is a branch symex cannot fold */
+	case WEV_WRITE_OK: vp_finished_connecting = 1; fire_write(2); break;
+	case WEV_WRITE_ALL: vp_finished_connecting = 1; fire_write(u_dead[B] || !g_alive_mem ? 0 : (long)evbuffer_get_length(b->output)); break;
 	case WEV_WRITE_ERR: vp_finished_connecting = 1; vp_sink_force_errno = vp_bool() ? ECONNRESET : EPIPE; fire_write(-1); break;
 	case WEV_WRITE_ZERO: vp_finished_connecting = 1; fire_write(0); break;
-	case REV_DATA: vp_sink_rd_avail = (size_t)vp_range(1, 0x7fffffff); fire_read(EV_READ, (long)vp_range(1, 0x7fffffff)); break;
+	case REV_DATA: vp_sink_rd_avail = 4096; fire_read(EV_READ, 3); break;
 	case REV_EOF: fire_read(EV_READ, 0); break;
 	case REV_ERR: vp_sink_force_errno = vp_bool() ? ECONNRESET : EPIPE; fire_read(EV_READ, -1); break;
 	case REV_RETRY: vp_sink_force_errno = vp_bool() ? EAGAIN : EINTR; fire_read(EV_READ, -1); break;
@@ -184,7 +190,7 @@ static void do_op(int op)
 	case ENABLE_W: if (!u_dead[B]) bufferevent_enable(b, EV_WRITE); break;
 	case ENABLE_R: if (!u_dead[B]) { bufferevent_enable(b, EV_READ); g_rd_ended = 0; } break;
 	case APP_WRITE:
-		if (!u_dead[B]) { size_t m = vp_size(); __CPROVER_assume(m >= 1 && m <= (size_t)EV_SSIZE_MAX / 4); bufferevent_write(b, NULL, m); }
+		if (!u_dead[B]) bufferevent_write(b, NULL, 5);
 		break;
 	case HOSTNAME_CONNECT:
 		if (u_dead[B]) break;
